@@ -44,9 +44,9 @@ POOL = [  # (catalogue entry, weight, fixed kwargs override or None)
     ("Guderley", 3, None), ("Rmtv", 2, None), ("SuOlson", 2, None), ("nED_Solver", 3, None), ("ED_Solver", 1, None),
     ("NohBlackBoxEos", 4, None), ("Blake", 2, None), ("IGEOS_Solver", 3, None), ("GenEOS_Solver", 0.3, None), ("Sedov", 2, None),
     ("Mader", 2, None), ("SteadyDetonationReactionZone", 2, None), ("EPpiston", 2, None), ("Rod1D", 1, None), ("Noh", 1, None),
-    ("Cog13", 1, None), ("Kenamond3", 1, None), ("IGEOS_Solver2D", 1, None),
+    ("Cog13", 1, None), ("Kenamond3", 1, None), ("IGEOS_Solver2D", 1, None), ("EscapeOfHEProducts", 2, None), ("Hutchens1", 1, None),
 ]
-GLOBAL_USERS = ["Guderley", "Rmtv", "SuOlson", "nED_Solver", "NohBlackBoxEos", "Blake"]
+GLOBAL_USERS = ["Guderley", "Rmtv", "SuOlson", "nED_Solver", "NohBlackBoxEos", "Blake", "EscapeOfHEProducts"]
 
 
 def gen_spec(ctx, rng, ent):
@@ -348,11 +348,12 @@ def sub(e, pts, idx):
 def run_batch(ctx, p):
     ent = p["entry"]
     e = C.CAT[ent]
-    if e["cost"] >= 1 and p["seed"] % 4 and not ctx.thorough():
-        raise Skip("costly_class_thinned")
+    thin = e["cost"] >= 1 and p["seed"] % 4 and not ctx.thorough()
     cls = C.load(e["path"])
     rng = np.random.default_rng(p["seed"])
     n = 6 if e["cost"] >= 0.2 else 14
+    if thin:
+        n = 3              # a costly class outside its full turn: three points, then the same three with two of them repeated
     d = C.draw(ctx, cls, ent, rng, n=n)
     if d is None:
         raise Skip("no_admissible_draw")
@@ -374,6 +375,16 @@ def run_batch(ctx, p):
                 worst, wf = float(dd.max()), f
         ctx.observe("batch", name, worst <= tol, branch=label, measure=worst, tol=tol, detail=dict(field=wf, t=t, n=m,
                     params={k: v for k, v in d["passed"].items() if isinstance(v, (int, float, str))}))
+    if thin:
+        if ent in ("Mader", "Sedov") or e["layout"] == "comp2" and False:
+            raise Skip("costly_class_thinned")
+        idx = np.array([0, 1, 2, 0, 1][: m + 2]) if m >= 3 else np.array([0, 0])
+        try:
+            B = ctx.call(s, sub(e, pts, idx), t)
+            compare("duplicates (short request)", np.arange(len(idx)), idx, B)
+        except SolverRaised:
+            ctx.count("short_duplicates_request_raised:" + name)
+        return
     if ent == "Mader":
         # documented grid dependence (dx from first/last point and N): the same grid must give the same cell averages
         B = ctx.call(s, pts.copy(), t)
@@ -484,6 +495,13 @@ def run_reuse(ctx, p):
     w, wf = worst_diff(S.values(A), S.values(A2))
     ctx.observe("hist.reuse", name, S.digest(A) == S.digest(A2), branch="call (x1,t1), (x2,t2), (x1,t1): first == third" + ("" if t2 != t1 else " [t2 == t1]"),
                 measure=w, detail=dict(det, field=wf), nontrivial=nz)
+    # a grid that differs from the first one by a few parts in a million (a moved mesh, a finite-difference stencil): judged
+    # against a fresh, identically constructed instance below
+    pts3 = pts1 * (1.0 + 3e-6) + 1e-9
+    try:
+        C3 = ctx.call(s, pts3.copy(), t1)
+    except SolverRaised:
+        C3 = None
     # the second call against the first call of a fresh, identically constructed instance
     try:
         if e["build"] is not None:
@@ -498,6 +516,19 @@ def run_reuse(ctx, p):
     nz = any(np.any(np.asarray(B[f], float) != 0) for f in B.dtype.names if B[f].dtype.kind == "f")
     ctx.observe("hist.reuse", name, S.digest(B) == S.digest(B2), branch="second call of a used instance == first call of a fresh one" + ("" if t2 != t1 else " [t2 == t1]"),
                 measure=w, detail=dict(det, field=wf), nontrivial=nz)
+    if C3 is not None and ent not in ("Mader", "Sedov"):
+        try:
+            if e["build"] is not None:
+                s3, _, _, _ = C.instantiate(ctx, cls, ent, np.random.default_rng(0), geom=d["geom"], kwargs=d["passed"])
+            else:
+                s3, _, _, _ = C.instantiate(ctx, cls, ent, np.random.default_rng(0), geom=d["geom"], kwargs={k: v for k, v in d["passed"].items() if k != "geometry"})
+            C3f = ctx.call(s3, pts3.copy(), t1)
+        except SolverRaised:
+            ctx.count("reuse_fresh_instance_raised:" + name)
+            return
+        w, wf = worst_diff(S.values(C3), S.values(C3f))
+        ctx.observe("hist.reuse", name, S.digest(C3) == S.digest(C3f), branch="a grid 3e-6 away from the first one on a used instance == on a fresh one", measure=w,
+                    detail=dict(det, field=wf), nontrivial=nz)
 
 
 # ---- arguments shared between constructions: the caller's dictionary, the constructors' default dictionary ----------------------
